@@ -93,6 +93,14 @@ Proof.
     destruct h; [destruct (is_variable t); [discriminate|]|]; eapply IH; eauto.
 Qed.
 
+Lemma scan_tokens_check ts : forall h a r, scan_tokens ts h a = Ok r -> check_tokens ts = Ok tt.
+Proof.
+  induction ts as [|t ts IH]; intros h a r H; [reflexivity|].
+  cbn [scan_tokens check_tokens] in *. destruct (token_bitlength t) as [bl|] eqn:Eb; [|discriminate]. cbn [bind] in *.
+  destruct (is_stretchy t); [destruct h; [discriminate|eapply IH; eauto]|].
+  destruct h; [destruct (is_variable t); [discriminate|]|]; eapply IH; eauto.
+Qed.
+
 Lemma read_list_loop_pos b ts : forall pos after vs p, Forall tok_ok ts -> 0 <= pos ->
   read_list_loop b ts pos after = Ok (vs, p) -> pos <= p /\ (p <= zlen b \/ p = pos).
 Proof.
